@@ -77,4 +77,21 @@ def run (args : List String) : String :=
     | _, _ => "bad-op"
   | _ => "bad-op"
 
+/-- `pcaphdr <hex of the file's first bytes>`: what the pcap object's properties must read (C16: "each readable property of
+the pcap … objects returns the value of the corresponding field as laid out by the pcap format" — magic, version major / minor
+unsigned, thiszone a SIGNED 32-bit quantity, sigfigs, snaplen, linktype unsigned); no model (the getters are one-liners): the
+implementation is judged against the specification directly -/
+def runHdr (args : List String) : String :=
+  match args with
+  | [hexc] =>
+    match unhexBytes hexc with
+    | some content =>
+      match Spec.PcapFile.decodeHeader content with
+      | none => result "MODEL-SKIP" "eq open=E"
+      | some h =>
+        let tz : Int := if h.thiszone ≥ 2147483648 then (h.thiszone : Int) - 4294967296 else (h.thiszone : Int)
+        result "MODEL-SKIP" s!"eq hdr {h.magic} {h.versionMajor} {h.versionMinor} {tz} {h.sigfigs} {h.snaplen} {h.linktype}"
+    | none => "bad-op"
+  | _ => "bad-op"
+
 end P2sh.Driver.PcapDrv
